@@ -1,16 +1,15 @@
 use std::collections::{BTreeMap, HashMap, HashSet};
 use std::hash::{Hash, Hasher};
-use std::ops::Add;
 
 use fnv::FnvHasher;
 
 use crate::data_model::Row;
 use crate::execution::{ColumnProvider, ColumnScope, ExecutionError, ExecutionResult, ExpressionTreeHash, ResultRow};
 use crate::execution::column_providers::{HashMapOwnedKeyColumnProvider, SingleColumnProvider};
-use crate::execution::expression_execution::{ExpressionExecutionEngine};
+use crate::execution::expression_execution::{EvaluationError, ExpressionExecutionEngine};
 use crate::execution::helpers::DistinctValues;
 use crate::helpers::IterExt;
-use crate::model::{Aggregate, AggregateStatement, ExpressionTree, Float, IntervalType, Value, ValueType};
+use crate::model::{Aggregate, AggregateStatement, ExpressionTree, Float, IntervalType, Value};
 
 #[derive(Debug, Clone, PartialEq, Eq, Hash, PartialOrd, Ord)]
 struct GroupKey(Vec<Value>);
@@ -457,23 +456,13 @@ impl GroupAggregator {
     pub fn update(&mut self, column_value: Value) -> ExecutionResult<Option<Value>> {
         match self {
             GroupAggregator::Sum(sum) => {
-                sum.modify_same_type_numeric_nullable(
-                    &column_value,
-                    |x, y| { *x += y },
-                    |x, y| { *x += y },
-                    |x, y| { *x = x.add(y) }
-                );
+                add_to_sum(sum, &column_value)?;
 
                 let sum = sum.clone();
                 Ok(Some(sum))
             }
             GroupAggregator::Average { sum, count } => {
-                sum.modify_same_type_numeric_nullable(
-                    &column_value,
-                    |x, y| { *x += y },
-                    |x, y| { *x += y },
-                    |x, y| { *x = x.add(y) }
-                );
+                add_to_sum(sum, &column_value)?;
                 *count += 1;
 
                 let average = sum.map_numeric(
@@ -486,30 +475,19 @@ impl GroupAggregator {
             }
             GroupAggregator::StandardDeviation { sum, sum_square, count, is_variance } => {
                 let squared_column_value = column_value.map_numeric(
-                    |x| Some(x * x),
+                    |x| x.checked_mul(x),
                     |x| Some(x * x),
                     |x| {
                         if let Some(microseconds) = x.num_microseconds() {
-                            Some(IntervalType::microseconds(microseconds * microseconds))
+                            microseconds.checked_mul(microseconds).map(|square| IntervalType::microseconds(square))
                         } else {
-                            Some(IntervalType::milliseconds(x.num_milliseconds() * x.num_milliseconds()))
+                            x.num_milliseconds().checked_mul(x.num_milliseconds()).and_then(|square| IntervalType::try_milliseconds(square))
                         }
                     }
-                ).unwrap_or(Value::Null);
+                ).ok_or(ExecutionError::Expression(EvaluationError::UndefinedOperation))?;
 
-                sum.modify_same_type_numeric_nullable(
-                    &column_value,
-                    |x, y| { *x += y },
-                    |x, y| { *x += y },
-                    |x, y| { *x = x.add(y) }
-                );
-
-                sum_square.modify_same_type_numeric_nullable(
-                    &squared_column_value,
-                    |x, y| { *x += y },
-                    |x, y| { *x += y },
-                    |x, y| { *x = x.add(y) }
-                );
+                add_to_sum(sum, &column_value)?;
+                add_to_sum(sum_square, &squared_column_value)?;
 
                 *count += 1;
 
@@ -620,6 +598,23 @@ fn empty_group_value(aggregate: &Aggregate) -> Value {
     match aggregate {
         Aggregate::Count(_, _) => Value::Int(0),
         _ => Value::Null
+    }
+}
+
+/// Adds a value to a running sum; a sum that leaves the representable range is an error (it never wraps)
+fn add_to_sum(sum: &mut Value, value: &Value) -> ExecutionResult<()> {
+    let overflow = std::cell::Cell::new(false);
+    sum.modify_same_type_numeric_nullable(
+        value,
+        |x, y| { match x.checked_add(y) { Some(result) => { *x = result; }, None => { overflow.set(true); } } },
+        |x, y| { *x += y },
+        |x, y| { match x.checked_add(&y) { Some(result) => { *x = result; }, None => { overflow.set(true); } } }
+    );
+
+    if overflow.get() {
+        Err(ExecutionError::Expression(EvaluationError::UndefinedOperation))
+    } else {
+        Ok(())
     }
 }
 
